@@ -7,14 +7,15 @@
 (*         accepts them: how many, and the first one)                                       *)
 (*   Bad   lines the statement + the deviations pinned for line.impl rejects -> VIOLATION    *)
 (*   Drift lines whose result the transcription of that implementation does not predict     *)
-EXTENDS TrafficFilterJavaI, TraceLib
+EXTENDS TrafficFilterJavaI, TrafficFilterTsI, TraceLib
 
 L(i) == TraceLog[i]
 Cases == 2..TraceLen
 
 Obs == {i \in Cases : ~PermittedStrict(L(i))}
 Bad == {i \in Obs : ~PermittedV(L(i), FilterDevs(L(i).impl))}
-Drift == {i \in Cases : L(i).impl = "java" /\ L(i).res \notin ResultsJ(L(i))}
+Drift == {i \in Cases : \/ (L(i).impl = "java" /\ L(i).res \notin ResultsJ(L(i)))
+                         \/ (L(i).impl = "ts" /\ L(i).res \notin ResultsT(L(i)))}
 ByDev(d) == {i \in Obs : d \in FilterDevs(L(i).impl) /\ Accepts(L(i), d)}
 Single == UNION {ByDev(d) : d \in AllFilterDevs}
 Min(S) == IF S = {} THEN 0 ELSE CHOOSE x \in S : \A y \in S : x <= y
